@@ -626,7 +626,7 @@ def interdiffusivity_from_diff(composition_set, refElement, diffusivity_callable
     elements = list(composition_set.phase_record.nonvacant_elements)
 
     if diffusivity_correction is None:
-        diffusivity_correction = {elements[A]: 1 for A in elements}
+        diffusivity_correction = {A: 1 for A in elements}
     else:
         for A in elements:
             if A not in diffusivity_correction:
